@@ -10,7 +10,7 @@ from . import vlib
 from . import eng_gfi
 
 RESAMPLE = ["CRepSw", "CVmSw"]      # update that changes every element's switch index: the fresh draws must be independent
-PROGS = ["CChain", "CIndep", "CNest", "CVm", "CRep", "CSc", "CScI", "CSw", "CMsk", "CMix", "CDm"]
+PROGS = ["CChain", "CIndep", "CNest", "CVm", "CRep", "CSc", "CScI", "CScN", "CSw", "CMsk", "CMix", "CDm"]
 DELTA = 1e-12
 
 PROPS = {
@@ -220,7 +220,7 @@ def run(prop_id, tier, seed, replay=None):
     import multiprocessing as mp
     with mp.get_context("spawn").Pool(min(8, len(jobs))) as pool:
         evs = pool.map(_sample, jobs, chunksize=1)
-    ncells = 81
+    ncells = 729 + 15 * 16      # joint cells of the largest program (6 three-valued choices) + its pairwise marginal cells
     bound = math.ceil(math.sqrt(n * math.log(2 * ncells * len(jobs) / DELTA) / 2.0))
     good = []
     for j, ev in enumerate(evs):
